@@ -289,8 +289,10 @@ class Result:
             "violations": len(self.violations),
         }
         ev["coverage"].update(self.notes)
-        os.makedirs(os.path.join(VERIF, "evidence"), exist_ok=True)
-        with open(os.path.join(VERIF, "evidence", self.prop + ".json"), "w") as f:
+        # (KV_EVIDENCE_DIR: developer tool bin/seedtest only - runs against a changed library must not overwrite the evidence)
+        evdir = os.environ.get("KV_EVIDENCE_DIR", os.path.join(VERIF, "evidence"))
+        os.makedirs(evdir, exist_ok=True)
+        with open(os.path.join(evdir, self.prop + ".json"), "w") as f:
             json.dump(ev, f, indent=1)
         for d in self.drift[:10]:
             log("MODEL-DRIFT property=%s %s" % (self.prop, json.dumps(d)[:300]))
